@@ -11,4 +11,5 @@ git diff --stat | tail -3
 cd /verif
 for p in "$@"; do ./check "$p" 2>&1 | grep -E "^(VIOLATION|KNOWN|C[0-9]+ quick|BROKEN)" | cut -c1-300; done
 git -C /repo checkout -- .
+/venv/bin/python /verif/harness/gen.py >/dev/null 2>&1
 git -C /repo status --short | grep -v results.csv
